@@ -115,6 +115,21 @@ Proof.
   - split; [left; exact H2|]. rewrite H2. auto.
 Qed.
 
+(* NOT SILENTLY, AND NOT NEEDLESSLY.  In every reachable state, whatever a delivered message of the
+   sender is answered with is an accepted snapshot, "part stored", or one of five refusals: an old
+   tick, a duplicate part, a transfer of more than 32 parts, Storage::OldDelta, or a base the Manager
+   does not (any longer) hold - never InvalidCrc, never a delta that fails to parse or to apply; and
+   the only warnings are the DeltaReceiver's. *)
+Theorem C13_genuine_refusals : forall sz t0 tr s k s' tick r ws ack,
+  follows_api sz (link_init t0) tr = true -> lrun sz (link_init t0) tr = Ok s ->
+  lstep sz s (Deliver k) = Ok (s', ODeliver tick (r, ws) ack) ->
+  (forall e, r = Err e -> refusal e = true) /\ only_receiver_warnings ws = true.
+Proof.
+  intros sz t0 tr s k s' tick r ws ack Hf Hr Hs.
+  destruct (lrun_linv sz tr (link_init t0) (linv_init sz t0) Hf) as (s1 & Hr' & I).
+  rewrite Hr in Hr'. injection Hr' as <-. apply (deliver_refusals sz s k s' tick r ws ack I Hs).
+Qed.
+
 (* The stronger clause of DESIGN.md ("after an error the acknowledged tick is never the tick of the
    failing message") is false, and harmlessly so: a duplicate of a message that was accepted is
    answered Err(Receiver(OldDelta)) and the acknowledged tick stays at that tick. *)
@@ -205,6 +220,7 @@ Print Assumptions C13_agree.
 Print Assumptions C13_stored_agree.
 Print Assumptions C13_ghosts.
 Print Assumptions C13_error_no_advance.
+Print Assumptions C13_genuine_refusals.
 Print Assumptions C13_error_never_own_tick_refuted.
 Print Assumptions C13_no_panic.
 Print Assumptions C13_K09_panics.
